@@ -45,6 +45,32 @@ def oracle_schedule(n, bs, ep, mi, has_cb, stops):
     return out
 
 
+def oracle_cbv(n, bs, ep, mi, cbs):
+    """documented behaviour with callbacks that may return anything (callbacks `(T steps, N steps)`: True at T, a truthy
+    value that is not a bool at N, something falsy otherwise): every callback is called after every completed step that does
+    not exhaust max_iter; a truthy non-bool result is a RuntimeError at once (the remaining callbacks are not called);
+    the run ends after the first step at which a callback returned True.  Returns (n_iter, slices, calls, exception)"""
+    if any(v <= 0 and v != -1 for v in (bs, ep, mi)):
+        return "setup:ValueError"      # documented: batch_size / epochs / max_iter are positive numbers or -1
+    plan = oracle_schedule(n, bs, ep, mi, bool(cbs), [])
+    if plan == "err":
+        return "err"
+    slices, calls = [], []
+    for lo, hi, k, fired in plan:
+        slices.append((lo, hi))
+        if not (fired and cbs):
+            continue
+        stop = False
+        for i, (t, nb) in enumerate(cbs):
+            calls.append((i, k))
+            if k in nb:
+                return len(slices), slices, calls, "RuntimeError"
+            stop = stop or (k in t)
+        if stop:
+            break
+    return len(slices), slices, calls, "-"
+
+
 def oracle_life(n, ops):
     """documented life cycle (first principles, independent of fairlearn and of the Lean model):
     predict before any fit -> NotFittedError; the first partial_fit builds the models, later ones continue;
@@ -178,6 +204,10 @@ class CHECK(Check):
     thorough_budget_s = 1100
     rule = ("sched: n in 1..40, batch_size in {-1,1..45}, epochs in {-1,1..4}, max_iter in {-1,1..30} (both -1 -> rejection), "
             "callbacks none / one callable / list of 1-3 callables returning False, None or True at chosen steps, "
+            "cbv: n in 1..16, 0-3 callbacks returning True / a truthy non-bool (1, 'stop', numpy.True_, [0], 2.5, a plain object) at "
+            "chosen steps and otherwise a falsy value (False, None, 0, '', numpy.False_), compared with `schedsrc.fitv` "
+            "(lifted `if self.callbacks_:` guard and result check: step count, slices, (callback, step) log, exception kind); "
+            "in 15% of the cbv cases one of batch_size / epochs / max_iter is 0, -2, -3 or -7 (lifted range check of __setup), "
             "classifier (int/str labels) or regressor, ndarray/list/pandas containers, shuffle=False. "
             "real: n in 2..24, 1-3 dyadic features, y binary/multiclass/continuous with int or str labels, sensitive feature "
             "binary/multiclass, predictor/adversary lists with 0-1 hidden layers, SGD or Adam, both constraints; rows are "
@@ -284,6 +314,34 @@ class CHECK(Check):
                 "Xtest": [[str(F(rng.randint(-12, 12), 4)) for _ in range(d)] for _ in range(rng.randint(1, 6))],
                 "container": rng.choice(["ndarray", "ndarray", "pandas"])}
 
+    def _cbv_case(self, rng, tier):
+        """callbacks returning values that are not bools (and runs without any callback): guard and result check"""
+        n = rng.randint(1, 16)
+        bs = rng.choice([-1, rng.randint(1, max(1, n)), rng.randint(1, 20)])
+        ep = rng.choice([-1, 1, 2, 3])
+        mi = rng.choice([-1, -1, rng.randint(1, 12)])
+        if ep == -1 and mi == -1 and rng.random() < 0.9:
+            mi = rng.randint(1, 12)
+        if rng.random() < 0.15:       # a value outside the documented domain (positive or -1): rejected by the set-up
+            bad = rng.choice([0, 0, -2, -3, -7])
+            which = rng.choice(["bs", "ep", "mi"])
+            bs, ep, mi = (bad if which == "bs" else bs), (bad if which == "ep" else ep), (bad if which == "mi" else mi)
+        invalid = any(v <= 0 and v != -1 for v in (bs, ep, mi))
+        planned = "err" if (invalid or (ep == -1 and mi == -1)) else len(oracle_schedule(n, bs, ep, mi, False, []))
+        cbs = []
+        for _ in range(rng.choice([0, 1, 1, 2, 2, 3])):
+            t, nb = [], []
+            if planned != "err":
+                if rng.random() < 0.4:
+                    t = sorted({rng.randint(1, planned + 1) for _ in range(rng.choice([1, 2]))})
+                if rng.random() < 0.55:
+                    nb = sorted({rng.randint(1, planned + 1) for _ in range(rng.choice([1, 1, 2]))})
+            cbs.append({"T": t, "N": nb, "nb": rng.choice(["1", "str", "np_true", "list", "2.5", "obj"]),
+                        "dflt": rng.choice(["False", "None", "0", "empty", "np_false"])})
+        return {"kind": "cbv", "n": n, "bs": bs, "ep": ep, "mi": mi, "cbs": cbs,
+                "cb_as": rng.choice(["callable", "list"]) if len(cbs) == 1 else "list",
+                "est": rng.choice(["classifier", "regressor", "base"])}
+
     def _life_case(self, rng, tier):
         """call histories: fit (cold / warm), partial_fit, predict in any order on one estimator (recording engine)"""
         n = rng.randint(2, 12)
@@ -309,8 +367,10 @@ class CHECK(Check):
     def generate(self, rng, tier):
         while True:
             r = rng.random()
-            if r < 0.62:
+            if r < 0.52:
                 yield self._sched_case(rng, tier)
+            elif r < 0.62:
+                yield self._cbv_case(rng, tier)
             elif r < 0.74:
                 yield self._life_case(rng, tier)
             else:
@@ -340,6 +400,23 @@ class CHECK(Check):
             for k, v in (("est", "base"), ("container", "ndarray")):
                 if case[k] != v:
                     yield dict(case, **{k: v})
+            return
+        if case["kind"] == "cbv":
+            for k, lo in (("n", 1), ("ep", 1), ("mi", 1), ("bs", 1)):
+                v = case[k]
+                if v > lo:
+                    for nv in sorted({lo, v // 2, v - 1}):
+                        if lo <= nv < v:
+                            yield dict(case, **{k: nv})
+            for i, c in enumerate(case["cbs"]):
+                yield dict(case, cbs=case["cbs"][:i] + case["cbs"][i + 1:], cb_as="list")
+                for key in ("T", "N"):
+                    if c[key]:
+                        yield dict(case, cbs=case["cbs"][:i] + [dict(c, **{key: c[key][1:]})] + case["cbs"][i + 1:])
+                if c["dflt"] != "False":
+                    yield dict(case, cbs=case["cbs"][:i] + [dict(c, dflt="False")] + case["cbs"][i + 1:])
+            if case["est"] != "base":
+                yield dict(case, est="base")
             return
         if case["kind"] == "sched":
             for k, lo in (("n", 1), ("ep", 1), ("mi", 1), ("bs", 1)):
@@ -445,6 +522,63 @@ class CHECK(Check):
                     aligned = False
             slices.append([lo, hi])
         return {"slices": slices, "aligned": aligned, "calls": calls, "n_iter": int(est.n_iter_), "ret_self": ret is est}
+
+    def _impl_cbv(self, case):
+        import numpy as np
+        from fairlearn.adversarial import AdversarialFairnessClassifier, AdversarialFairnessRegressor
+        from fairlearn.adversarial._adversarial_mitigation import _AdversarialFairness
+        Eng = recording_engine()
+        Eng.LOG = []
+        n = case["n"]
+        X = np.zeros((n, 2))
+        X[:, 0] = np.arange(n)
+        X[:, 1] = 0.5
+        if case["est"] in ("regressor", "base"):
+            y = [i + 0.5 for i in range(n)]
+            cls = AdversarialFairnessRegressor if case["est"] == "regressor" else _AdversarialFairness
+        else:
+            y = [i % 2 for i in range(n)]
+            cls = AdversarialFairnessClassifier
+        sf = [i + 0.25 for i in range(n)]
+        calls = []
+
+        class Obj:          # an object without __bool__ / __len__: truthy
+            pass
+        NB = {"1": 1, "str": "stop", "np_true": np.True_, "list": [0], "2.5": 2.5, "obj": Obj()}
+        DF = {"False": False, "None": None, "0": 0, "empty": "", "np_false": np.False_}
+
+        def mk(idx, spec):
+            t, nb = set(spec["T"]), set(spec["N"])
+
+            def cb(est, step, **kw):
+                calls.append([idx, int(step), int(est.n_iter_)])
+                if step in nb:
+                    return NB[spec["nb"]]
+                if step in t:
+                    return True
+                return DF[spec["dflt"]]
+            return cb
+
+        cbs = [mk(i, c) for i, c in enumerate(case["cbs"])]
+        kw = {}
+        if cbs:
+            kw["callbacks"] = cbs[0] if case["cb_as"] == "callable" else cbs
+        if case["est"] == "base":
+            est = cls(backend=Eng, batch_size=case["bs"], epochs=case["ep"], max_iter=case["mi"], shuffle=False, **kw)
+        else:
+            est = cls(backend=Eng, batch_size=case["bs"], epochs=case["ep"], shuffle=False, **kw)
+            est.max_iter = case["mi"]
+        exc = "-"
+        try:
+            est.fit(X, np.array(y), sensitive_features=np.array(sf))
+        except Exception as e:  # noqa: BLE001  (the kind of the exception is the observation)
+            exc = type(e).__name__
+        slices = []
+        for Xb, _Yb, _Ab in Eng.LOG:
+            rows = [int(v) for v in np.asarray(Xb)[:, 0]]
+            slices.append([rows[0], rows[-1] + 1])
+        ni = getattr(est, "n_iter_", None)
+        return {"slices": slices, "calls": calls, "n_iter": None if ni is None else int(ni), "exc": exc}
 
     def _real_estimator(self, case, torch):
         from fairlearn.adversarial import AdversarialFairnessClassifier, AdversarialFairnessRegressor
@@ -604,6 +738,8 @@ class CHECK(Check):
     def impl(self, case):
         if case["kind"] == "life":
             return self._impl_life(case)
+        if case["kind"] == "cbv":
+            return self._impl_cbv(case)
         return self._impl_sched(case) if case["kind"] == "sched" else self._impl_real(case)
 
     # ------------------------------------------------------------------------------------------ protocol
@@ -632,6 +768,13 @@ class CHECK(Check):
     def lines(self, case, o):
         if case["kind"] == "life":
             return ["schedlife.run " + self._life_tokens(case)]
+        if case["kind"] == "cbv":
+            def tok(c):
+                t = ",".join(str(k) for k in sorted(set(c["T"])))
+                nb = ",".join(str(k) for k in sorted(set(c["N"])))
+                return f"{t}|{nb}|{'b' if c['dflt'] == 'False' else 'o'}"
+            return [f"schedsrc.fitv {case['n']} {case['bs']} {case['ep']} {case['mi']} "
+                    + (";".join(tok(c) for c in case["cbs"]) if case["cbs"] else "x")]
         args = f"{case['n']} {case['bs']} {case['ep']} {case['mi']} {proto.b(self._has_cb(case))} {proto.lst(self._stops(case))}"
         if case["kind"] == "sched":
             cbtok = ";".join(proto.lst(sorted(set(c["stops"]))) for c in case["cbs"]) if case["cbs"] else "x"
@@ -652,6 +795,39 @@ class CHECK(Check):
         return ls
 
     # ------------------------------------------------------------------------------------------ judging
+    def _judge_cbv(self, case, o, mo):
+        probs = []
+        want = oracle_cbv(case["n"], case["bs"], case["ep"], case["mi"], [(set(c["T"]), set(c["N"])) for c in case["cbs"]])
+
+        def fmt(ni, sl, calls, exc):
+            return (f"{ni} " + (",".join(f"{lo}:{hi}" for lo, hi in sl) if sl else "-") + " "
+                    + (",".join(f"{i}:{k}" for i, k in calls) if calls else "-") + " " + exc)
+        wtxt = want if isinstance(want, str) else fmt(*want)
+        thm = "C17.src_nonbool_callback_rejected" if case["cbs"] else "C17.src_no_callbacks_no_calls"
+        if mo is not None and mo[0] != wtxt:
+            probs.append(model_problem(f"lifted guard / result check: interpreter says {mo[0][:160]}, documented {wtxt[:160]}"))
+        if isinstance(want, str):
+            if o["exc"] != "ValueError" or o["slices"] or o["calls"]:
+                if want == "err":
+                    probs.append(Problem("property", f"epochs=-1 and max_iter=-1 must be rejected before any step, got {str(o)[:100]}",
+                                         "C17.both_unset_rejected"))
+                else:
+                    probs.append(Problem("property", f"batch_size={case['bs']}, epochs={case['ep']}, max_iter={case['mi']}: a value that "
+                                         f"is neither positive nor -1 must be rejected with ValueError before any step, got {str(o)[:100]}",
+                                         "C17.src_nonpositive_params_rejected"))
+            return probs
+        itxt = fmt(o["n_iter"], [tuple(x) for x in o["slices"]], [(c[0], c[1]) for c in o["calls"]], o["exc"])
+        if itxt != wtxt:
+            what = ("callbacks returning non-bool values" if case["cbs"] else "no callbacks")
+            probs.append(Problem("property", f"{what}: fit made (n_iter_, slices, (callback, step) calls, exception) = {itxt[:200]}; "
+                                 f"documented: {wtxt[:200]}", thm))
+        if any(c[1] != c[2] for c in o["calls"]):
+            probs.append(Problem("property", "a callback was called with step != n_iter_", "C17.callbacks"))
+        if mo is not None and mo[0] not in ("bad-op",) and itxt != mo[0]:
+            probs.append(Problem("correspondence", f"fit recorded {itxt[:160]}, the interpreter of the lifted source (guard, result "
+                                 f"check) says {mo[0][:160]}", thm))
+        return probs
+
     @staticmethod
     def _parse_run(tok):
         if tok == "err":
@@ -672,6 +848,8 @@ class CHECK(Check):
             return []      # generated learning rate made training overflow to NaN: nothing to compare (tagged)
         if case["kind"] == "life":
             return self._judge_life(case, o, mo)
+        if case["kind"] == "cbv":
+            return self._judge_cbv(case, o, mo)
         probs = []
         has_cb, stops = self._has_cb(case), self._stops(case)
         want = oracle_schedule(case["n"], case["bs"], case["ep"], case["mi"], has_cb, stops)
@@ -847,6 +1025,14 @@ class CHECK(Check):
             if seq and seq[0] == "predict":
                 tags.append("life:predict_first")
             return json.dumps(case, sort_keys=True), len(ops) >= 2, tags
+        if case["kind"] == "cbv":
+            w = oracle_cbv(case["n"], case["bs"], case["ep"], case["mi"], [(set(c["T"]), set(c["N"])) for c in case["cbs"]])
+            tags = ["kind=cbv", f"callbacks={len(case['cbs'])}", f"est={case['est']}",
+                    "outcome=" + (w if isinstance(w, str) else "RuntimeError" if w[3] != "-" else "completed")]
+            if not isinstance(w, str) and w[3] != "-":
+                tags.append("nonbool=" + next(c["nb"] for c in case["cbs"] if w[0] in c["N"]))
+            tags += sorted({"falsy=" + c["dflt"] for c in case["cbs"]})
+            return json.dumps(case, sort_keys=True), (not isinstance(w, str) and w[0] >= 2), tags
         tags = [f"kind={case['kind']}"]
         want = oracle_schedule(case["n"], case["bs"], case["ep"], case["mi"], self._has_cb(case), self._stops(case))
         nsteps = 0 if want == "err" else len(want)
